@@ -9,27 +9,32 @@ MUL = [("a * id_stride", "verif_mul(a, id_stride, 0)", 1), ("a * func_stride", "
        ("a * attr_stride", "verif_mul(a, attr_stride, 4)", 1)]
 THREADS = ["myth_create_ex_body/create_contract", "myth_join_body/join_contract"]
 FP = ["myth_create_join_various_ex_aux.function_pointer_call.1/F_watch,F_other"]
+def aux_job(name, part, **kw):
+    d = list(kw.pop("defines", [])) + ["-DPART=%d" % part]
+    return Job(name, TU, "h_aux", rec=["myth_create_join_various_ex_aux/aux_contract"], replace=THREADS, restrict_fp=FP,
+               defines=d, fuc=["myth_create_join_various_ex_aux"], timeout=200, mem_gb=4, **kw)
 JOBS = [
-  Job("c17.aux", TU, "h_aux", rec=["myth_create_join_various_ex_aux/aux_contract"], replace=THREADS, rewrites=HOOK + MUL,
-      restrict_fp=FP, fuc=["myth_create_join_various_ex_aux"], timeout=200,
-      note="inductive (--enforce-contract-rec): any range [a,b), any n, any strides; i*stride is an uninterpreted function "
-           "constrained by congruence and monotonicity (lemma c17.lemma.mono)"),
+  aux_job("c17.aux.leaf", 1, rewrites=HOOK + MUL,
+      note="base case of the induction (--enforce-contract-rec): range of one item, any item number, any strides; i*stride is an "
+           "uninterpreted function constrained by congruence and monotonicity (lemma c17.lemma.mono)"),
+  aux_job("c17.aux.split", 2, rewrites=HOOK + MUL,
+      note="inductive step (--enforce-contract-rec): any range of two or more items, any n; the recursive call and the created-and-joined "
+           "thread are replaced by aux's own contract on strictly smaller ranges"),
   Job("c17.various", TU, "h_various", enforce=["myth_create_join_various_ex_body/various_contract"],
       replace=["myth_create_join_various_ex_aux/aux_contract"],
-      fuc=["myth_create_join_various_ex_body"], timeout=200),
+      fuc=["myth_create_join_various_ex_body"], timeout=200, mem_gb=4),
   Job("c17.many", TU, "h_many", enforce=["myth_create_join_many_ex_body/many_contract"],
       replace=["myth_create_join_various_ex_body/various_contract"],
-      fuc=["myth_create_join_many_ex_body"], timeout=200),
-  Job("c17.lemma.mono", TU, "h_lemma_mono", solver="z3", fuc=[], timeout=100,
+      fuc=["myth_create_join_many_ex_body"], timeout=200, mem_gb=4),
+  Job("c17.lemma.mono", TU, "h_lemma_mono", solver="z3", fuc=[], timeout=100, mem_gb=2,
       note="x < y and s >= 0 imply x*s + s <= y*s over the mathematical integers (z3); machine products of operands below 2^31 do not overflow"),
 ]
 for k, strides in enumerate(("ids 8, funcs 0, args 1, results 8, attrs 0", "ids 24, funcs 16, args 40, results 32, attrs 48",
                              "ids 4096, funcs 8, args 0, results 16, attrs 7")):
-    JOBS.append(Job("c17.aux.s%d" % k, TU, "h_aux", rec=["myth_create_join_various_ex_aux/aux_contract"], replace=THREADS,
-      rewrites=HOOK, restrict_fp=FP, defines=["-DVMUL=0", "-DSAMPLE=%d" % k], kind="bounded",
-      fuc=["myth_create_join_various_ex_aux"], timeout=200,
-      note="bounded cross-check with the REAL multiplications of the text (no verif_mul): constant stride tuple (%s), any n < 2^31; "
-           "the axioms of the product table are assertions here" % strides))
+    for part, pn in ((1, "leaf"), (2, "split")):
+        JOBS.append(aux_job("c17.aux.%s.s%d" % (pn, k), part, rewrites=HOOK, defines=["-DVMUL=0", "-DSAMPLE=%d" % k], kind="bounded",
+          note="bounded cross-check with the REAL multiplications of the text (no verif_mul): constant stride tuple (%s), any n < 2^31; "
+               "the axioms of the product table are assertions here" % strides))
 META = {
  "level": "proof",
  "level_text": "",
